@@ -50,8 +50,9 @@ CHECKS["C01"] = dict(
           "solver's epsilon bands (C18_jolt_refuted: false in general for tetrahedra); not discharged here; "
           "C01_exact_on_stall_nonvacuous exhibits a concrete state of the loop model, the one after the first iteration on two points at "
           "distance 2, that meets all eight hypotheses together). The clipping early-out and the closest-point reconstruction are exercised "
-          "by a stream of big shapes under default clipping and by 4000 (thorough 30000) further pairs of curved colliders that are run and "
-          "screened by a float test, the suspicious ones going to the checker. Tie model/code: the support points "
+          "by a stream of big shapes under default clipping and by 8000 (thorough 60000) further pairs (unit-scale curved colliders; small "
+          "overlapping colliders of size 0.01-0.02) that are run and screened by a float test, the suspicious ones going to the checker; "
+          "15 % of the pairs are brought to their placement by update_pose instead of the constructor. Tie model/code: the support points "
           "the implementation obtained in "
           "iteration i are replayed through step i of the model, which must reproduce every search direction, the iteration count, the exit and "
           "(d, a, b); a difference is excused only if the model's own discrete behaviour changes under ~1-10 ulp perturbations of the trace "
